@@ -450,6 +450,7 @@ func init() {
 		stride := fs.Int("stride", 1, "use every stride-th program row")
 		kinds := fs.String("kinds", "pair,rawclient,rawserver", "which bindings to run")
 		wireOut := fs.String("wire-trace", "", "output NDJSON for TraceWire")
+		long := fs.Int("long", 4, "long-lived connections with hundreds of frames each")
 		hugeEvery := fs.Int("huge-every", 0, "every n-th row uses >1 MiB for the x class (0 = never)")
 		fs.Parse(args)
 		rep := newReport("roundtrip")
@@ -526,6 +527,72 @@ func init() {
 		<-done
 		if ferr != nil {
 			return ferr
+		}
+		// a few long-lived connections with hundreds of frames each (Write, streamed Writer, Ping): the per-connection
+		// rules of TraceWire (mask-key freshness above all) need more frames than any short program produces
+		for li := 0; li < *long; li++ {
+			libClient := li%2 == 0
+			c, raw, err := ws.NewConn(libClient, "off", 0)
+			if err != nil {
+				return err
+			}
+			lr := rand.New(rand.NewSource(*seed*31 + int64(li)))
+			go func() { // the peer answers pings so that Ping returns
+				var acc []byte
+				tmp := make([]byte, 4096)
+				for {
+					n, err := raw.In.Read(tmp)
+					acc = append(acc, tmp[:n]...)
+					for {
+						f, k, e := ws.DecodeFrame(acc)
+						if e != nil {
+							break
+						}
+						acc = acc[k:]
+						lines := wireLine{Ev: "Frame", Hdr: hdrInts(f.RawHeader)}
+						if f.Op >= 8 {
+							lines.Pl = string(f.Payload)
+						}
+						wmu.Lock()
+						wire = append(wire, lines)
+						wmu.Unlock()
+						if f.Op == ws.OpPing {
+							pf := ws.Frame{Fin: true, Op: ws.OpPong, Masked: !libClient, Key: [4]byte{9, 9, 9, 9}, Payload: f.Payload}
+							raw.Out.Write(pf.Encode())
+						}
+					}
+					if err != nil {
+						return
+					}
+				}
+			}()
+			role := "server"
+			if libClient {
+				role = "client"
+			}
+			wmu.Lock()
+			wire = append(wire, wireLine{Ev: "WireReset", Role: role})
+			wmu.Unlock()
+			c.CloseRead(context.Background())
+			ctx, cancel := context.WithTimeout(context.Background(), 30*time.Second)
+			for k := 0; k < 150; k++ {
+				switch lr.Intn(3) {
+				case 0:
+					c.Write(ctx, websocket.MessageText, prf(int64(k), k, lr.Intn(200)))
+				case 1:
+					if w, err := c.Writer(ctx, websocket.MessageBinary); err == nil {
+						w.Write(prf(int64(k), 1, lr.Intn(100)))
+						w.Write(prf(int64(k), 2, lr.Intn(100)))
+						w.Close()
+					}
+				default:
+					c.Ping(ctx)
+				}
+			}
+			cancel()
+			c.CloseNow()
+			time.Sleep(5 * time.Millisecond)
+			evals++
 		}
 		if *wireOut != "" {
 			f, err := os.Create(*wireOut)
